@@ -340,3 +340,56 @@ Theorem start_true_implies_fork w i wait c w' :
 Proof. intros HK E. rewrite start_process_f_eq in E. exact (start_true_implies_fork_f 100 w i wait c w' HK E). Qed.
 
 End WithConfig.
+
+(* ====================================================================== *)
+(* Every boundary of every run satisfies the hypothesis K of the theorems above *)
+Theorem K_run U pconfs gconfs ops : K (Model.run U pconfs gconfs ops).
+Proof. apply (pend_no_todo_run U pconfs gconfs ops). Qed.
+
+(* Examples: the calls of the theorems above on concrete boundaries *)
+Definition ex_manual : pconf := mkConf 1 3 10 15 999 false ARUnexpected [0] false false CmdOk 0%nat.
+
+(* C1: startProcess(wait=false) on a STOPPED process answers true, having forked *)
+Example start_true_implies_fork_example :
+  let w := Model.run 10 [ex_manual] ex_g [mkPass 5 [] [0] []] in
+  sts w 0%nat = STOPPED /\
+  exists w', Model.start_process 10 [ex_manual] 0%nat false w = (Some (CDone 0), w') /\
+             out w' = EFork 0%nat 1000 :: EState 0%nat STOPPED STARTING 0 true :: out w.
+Proof. vm_compute. split; [reflexivity|]. eexists. split; reflexivity. Qed.
+
+(* ... and the known finding: `true` on a STOPPING process, nothing forked *)
+Example start_true_on_stopping_example :
+  let w := Model.run 10 [ex_ok] ex_g [mkPass 5 [] [0] []; mkPass 30 [ARpc 1 (RStop 0%nat false)] [] [1]] in
+  sts w 0%nat = STOPPING /\
+  exists w', Model.start_process 10 [ex_ok] 0%nat false w = (Some (CDone 0), w') /\ out w' = out w.
+Proof. vm_compute. split; [reflexivity|]. eexists. split; reflexivity. Qed.
+
+(* C2 *)
+Example signal_delivers_exactly_one_kill_example :
+  let w := Model.run 10 [ex_ok] ex_g [mkPass 5 [] [0] []; mkPass 30 [] [] [1]] in
+  exists w', Model.signal_process 10 [ex_ok] 0%nat 10 true w = (Some (CDone 0), w') /\
+             out w' = EKill 1000 10 0 :: out w.
+Proof. vm_compute. eexists. split; reflexivity. Qed.
+
+(* C3: the child dies at once and is reaped inside the call *)
+Example stop_true_means_stopped_example :
+  let w := Model.run 10 [ex_ok] ex_g [mkPass 5 [] [0] []; mkPass 30 [] [] [0]] in
+  exists w', Model.stop_process 10 [ex_ok] 0%nat true w = (Some (CDone 0), w') /\
+             sts w' 0%nat = STOPPED /\ pid (procs w' 0%nat) = 0.
+Proof. vm_compute. eexists. repeat split. Qed.
+
+Example stop_onwait_true_means_stopped_example :
+  let w := Model.run 10 [ex_ok] ex_g [mkPass 5 [] [0] []; mkPass 30 [ARpc 1 (RStop 0%nat false)] [] [0]] in
+  Model.stop_onwait 10 [ex_ok] 0%nat w = (Some (Some 0), w).
+Proof. vm_compute. reflexivity. Qed.
+
+(* ---------- a finding about the model (and the code it transcribes): stopProcess(wait=true) can answer
+   `true` while the child is alive.  UNKNOWN is one of the STOPPED_STATES, and a SIGKILL that fails with an
+   error other than ESRCH (here EPERM, kill oracle 2) moves the STOPPING process to UNKNOWN with its pid in
+   place: the deferred stop is then answered `true` (EAns 1 0) although pid 1000 is still live. *)
+Example stop_answers_true_in_unknown_with_live_child :
+  let w := Model.run 10 [ex_ok] ex_g
+             [mkPass 5 [] [0] []; mkPass 30 [ARpc 1 (RStop 0%nat true)] [] [1]; mkPass 200 [] [] [2];
+              mkPass 201 [APoll] [] []] in
+  In (EAns 1 0) (out w) /\ sts w 0%nat = UNKNOWN /\ pid (procs w 0%nat) = 1000 /\ live w = [1000].
+Proof. vm_compute. repeat split. auto. Qed.
